@@ -208,6 +208,46 @@ def parse_typed_value(s):
     return parse_value(ty, rest)
 
 
+def const_tree(ty, init):
+    """the initializer of a constant global as a tree: list (array / struct members in order), Value (scalar leaf) or None
+    when the text has a shape that is not understood"""
+    init = init.strip()
+    ty = ty.strip()
+    if init == 'zeroinitializer':
+        m = re.match(r'^\[(\d+) x (.*)\]$', ty)
+        if m:
+            return [const_tree(m.group(2), 'zeroinitializer') for _ in range(int(m.group(1)))]
+        if ty.startswith('{') or ty.startswith('<{'):
+            inner = ty[1:-1] if ty.startswith('{') else ty[2:-2]
+            return [const_tree(t, 'zeroinitializer') for t in split_top(inner)]
+        if ty.startswith('%'):
+            return None
+        return Value('int', ty, ival=0) if re.match(r'^i\d+$', ty) else Value('null', ty)
+    m = re.match(r'^c"(.*)"$', init)
+    if m:
+        data = _unescape_cstring(m.group(1))
+        return [Value('int', 'i8', ival=ord(ch)) for ch in data]
+    if init.startswith('[') and init.endswith(']'):
+        out = []
+        for el in split_top(init[1:-1]):
+            el = el.strip()
+            t, j = parse_type(el)
+            out.append(const_tree(t, el[j:]))
+        return out
+    if (init.startswith('{') and init.endswith('}')) or (init.startswith('<{') and init.endswith('}>')):
+        inner = init[1:-1] if init.startswith('{') else init[2:-2]
+        out = []
+        for el in split_top(inner):
+            el = el.strip()
+            t, j = parse_type(el)
+            out.append(const_tree(t, el[j:]))
+        return out
+    try:
+        return parse_value(ty, init)
+    except Exception:
+        return None
+
+
 # ----------------------------------------------------------------------------
 # program objects
 
